@@ -4,6 +4,7 @@ import (
 	"context"
 	"encoding/hex"
 	"net/netip"
+	"strings"
 	"sync"
 
 	"github.com/miekg/dns"
@@ -372,7 +373,7 @@ func (w *ResponseWriter) WriteMsg(m *dns.Msg) error {
 		m.AuthenticatedData = false
 	}
 
-	if w.Proto() == "udp" && udpOverflow(m, w.size) {
+	if w.Proto() == "udp" && udpOverflow(m, w.size) && !fitsSpelledLikeQuestion(m, w.size) {
 		// A truncated response is a retry signal, not a partial answer
 		// (RFC 2181 §9): the client must discard the content and ask
 		// again over TCP, so everything but the question and the OPT
@@ -389,6 +390,55 @@ func (w *ResponseWriter) WriteMsg(m *dns.Msg) error {
 	}
 
 	return w.ResponseWriter.WriteMsg(m)
+}
+
+// fitsSpelledLikeQuestion handles the one overflow that is an artefact of
+// spelling. A client that randomises the letter case of its question (0x20)
+// gets the cache's lower-case owner names back; the library's name
+// compression is case-sensitive, so those owners no longer compress against
+// the question and every record grows by a name. The byte path serves the
+// stored body, whose owners are pointers into the question, so the same
+// reply fits there and was truncated here. When the message overflows and
+// the question has upper-case letters, owners equal to the question name
+// are spelled the way the client spelled it — what the byte path's pointers
+// already show it — and the message is measured again. Sections and records
+// are copied before they are touched: they may be shared with a cache entry.
+func fitsSpelledLikeQuestion(m *dns.Msg, limit int) bool {
+	if len(m.Question) != 1 {
+		return false
+	}
+	qname := m.Question[0].Name
+	upper := false
+	for i := 0; i < len(qname); i++ {
+		if c := qname[i]; c >= 'A' && c <= 'Z' {
+			upper = true
+			break
+		}
+	}
+	if !upper {
+		return false
+	}
+	respell := func(sec []dns.RR) []dns.RR {
+		var out []dns.RR
+		for i, rr := range sec {
+			h := rr.Header()
+			if h.Rrtype == dns.TypeOPT || h.Name == qname || !strings.EqualFold(h.Name, qname) {
+				continue
+			}
+			if out == nil {
+				out = append(make([]dns.RR, 0, len(sec)), sec...)
+			}
+			c := dns.Copy(rr)
+			c.Header().Name = qname
+			out[i] = c
+		}
+		if out == nil {
+			return sec
+		}
+		return out
+	}
+	m.Answer, m.Ns, m.Extra = respell(m.Answer), respell(m.Ns), respell(m.Extra)
+	return !udpOverflow(m, limit)
 }
 
 // keepOPTOnly returns just the OPT record from extra, or nil without one —
